@@ -342,7 +342,7 @@ def check_c14(idx: Index, tier: str, res: Result) -> None:
                                "agent type appears in the id list (and the count) of every type" % (fi.qual, src(v)[:60])) if shared else
                               "%s rebinds agent_type_map to %s, not to a table of new lists" % (fi.qual, src(v)[:60]),
                               key="COUPDATE/%s/shared-id-list" % fi.qual)
-    res.floor("id-list installations in agent_type_map", nown, 6)
+    res.floor("id-list installations in agent_type_map", nown, 4)      # init, register, reset/configure, delete (some written twice in the pinned tree)
     # create_agent appends agent.id under the factory key
     app = [c for c in iter_calls(create.node) if call_name(c) == "append" and is_row(row_aliases(create.node, "self.agent_type_map"), c.func.value, "self.agent_type_map")]
 
@@ -651,6 +651,9 @@ def check_c11(idx: Index, tier: str, res: Result) -> None:
         okg = any((isinstance(g.test, ast.Name) and g.test.id in evnames)
                   or (isinstance(g.test, ast.Compare) and isinstance(g.test.left, ast.Name) and g.test.left.id in evnames
                       and isinstance(g.test.ops[0], ast.IsNot)) for g in guards)
+        if not okg:
+            from ..util import truthy_at
+            okg = any(truthy_at(run_step.node, run_step.qual, c, ev) for ev in evnames)      # guard clauses: if not event: continue
         res.check("ONCE", "delivery guarded by the returned event", okg, run_step.loc(c), run_step.qual, src(c),
                   "delivery is not conditional on handle_delayed_event having returned the event (a parked event would be delivered too)",
                   key="ONCE/run_step/delivery-guard")
@@ -763,6 +766,9 @@ def _guarded_not_none(fn: ast.AST, call: ast.Call, target: ast.AST) -> bool:
     """The call sits in an `if <target>:` / `if <target> is not None:` body."""
     if not isinstance(target, ast.Name):
         return False
+    from ..util import truthy_at
+    if truthy_at(fn, getattr(fn, "name", "?"), call, target.id):
+        return True            # decided on the flow graph: nested ifs and guard clauses alike
     for n in ast.walk(fn):
         if isinstance(n, ast.If) and any(t is call for b in n.body for t in ast.walk(b)):
             t = n.test
@@ -1042,18 +1048,31 @@ def check_c12(idx: Index, tier: str, res: Result) -> None:
     for k, (node, fact) in violations.items():
         res.find("ORDER", "ORDER/run_step/%s" % k, rs.loc(node.ast) if node.ast is not None else rs.loc(), rs.qual,
                  node.text(), "step phases out of order: %s; path: %s" % (k, " ".join(flow.witness(node.id, fact, 14))))
-    res.floor("phase events found in run_step", sum(len(events_of(n)) for n in cfg.nodes), 7)
+    res.floor("phase events found in run_step", sum(len(events_of(n)) for n in cfg.nodes), 6)      # distribute, begin, handle, act, end, collect (the collect call may be written once or twice)
 
     # ---- TIME ------------------------------------------------------------------------
     assigns = single_assignments(rs.node)
     sp = params(rs.node)
+    # the step time: what the callbacks receive first; a local or the scheduler's attribute, one defined from the other in either order
+    attr_defs: Dict[str, List[ast.AST]] = {}
+    for n in walk_no_nested(rs.node):
+        if isinstance(n, ast.Assign) and len(n.targets) == 1 and dotted(n.targets[0]) and (dotted(n.targets[0]) or "").startswith("self."):
+            attr_defs.setdefault(dotted(n.targets[0]), []).append(n.value)
+
+    def value_of(e, depth=0):
+        if depth < 4 and isinstance(e, ast.Name) and len(assigns.get(e.id, [])) == 1:
+            return value_of(assigns[e.id][0], depth + 1)
+        if depth < 4 and isinstance(e, ast.Attribute) and dotted(e) in attr_defs and len(attr_defs[dotted(e)]) == 1:
+            return value_of(attr_defs[dotted(e)][0], depth + 1)
+        return e
     tvals = assigns.get("time", [])
-    ok = len(tvals) == 1 and _nfeq(tvals[0], "%s + %s * %s.dt" % (sp[2], sp[3], mp))
+    tval = value_of(ast.Name(id="time", ctx=ast.Load())) if len(tvals) == 1 else None
+    ok = tval is not None and _nfeq(tval, "%s + %s * %s.dt" % (sp[2], sp[3], mp))
     res.check("TIME", "time = round + step*dt", ok, rs.loc(tvals[0]) if tvals else rs.loc(), rs.qual,
-              "time = %s" % (src(tvals[0]) if tvals else "?"), "the step time is not sim_round + step * model.dt",
+              "time = %s" % (src(tval) if tval is not None else "?"), "the step time is not sim_round + step * model.dt",
               key="TIME/run_step/formula")
     cur = [n for n in walk_no_nested(rs.node) if isinstance(n, ast.Assign) and dotted(n.targets[0]) == "self.current_time"]
-    res.check("TIME", "current_time = time", bool(cur) and all(src(n.value) == "time" for n in cur), rs.loc(), rs.qual,
+    res.check("TIME", "current_time = time", bool(cur) and tval is not None and all(src(value_of(n.value)) == src(tval) for n in cur), rs.loc(), rs.qual,
               norm_stmt(cur[0]) if cur else "", "the scheduler's current_time is not the step time", key="TIME/run_step/current_time")
     ncb = 0
     for c in iter_calls(rs.node):
@@ -1069,26 +1088,72 @@ def check_c12(idx: Index, tier: str, res: Result) -> None:
             got = [src(a) for a in c.args[:2]]
             res.check("TIME", "collect(time, model.agents)", got == ["time", "%s.agents" % mp], rs.loc(c), rs.qual, src(c),
                       "statistics are recorded for %s instead of (time, model.agents)" % got, key="TIME/run_step/collect-args")
-    res.floor("callback call sites in run_step", ncb, 6)
+    res.floor("callback call sites in run_step", ncb, 5)       # begin, handle, act, end + at least one collect
 
     # ---- LAST: the no-collection branch --------------------------------------------------
     collects = [c for c in iter_calls(rs.node) if call_name(c) == "collect_agent_statistics"]
-    cond_ifs = []
-    for g in ast.walk(rs.node):
-        if isinstance(g, ast.If) and "collect_data" in src(g.test):
-            cond_ifs.append(g)
-    if len(cond_ifs) != 1 or len(collects) != 2:
-        raise AnalysisError("unrecognised collection structure in run_step (%d collect calls, %d collect_data tests)"
-                            % (len(collects), len(cond_ifs)))
-    g = cond_ifs[0]
-    res.check("LAST", "collection switched by collect_data", src(g.test) == "collect_data" and any(
-        x is collects[0] or x is collects[1] for b in g.body for x in ast.walk(b)), rs.loc(g), rs.qual, src(g.test),
-        "statistics are not recorded in the collect_data branch", key="LAST/run_step/switch")
-    last_ifs = [x for b in g.orelse for x in ast.walk(b) if isinstance(x, ast.If)]
-    if len(last_ifs) != 1:
-        raise AnalysisError("unrecognised last-step branch")
-    lt = last_ifs[0].test
-    conj = lt.values if isinstance(lt, ast.BoolOp) and isinstance(lt.op, ast.And) else [lt]
+    if not collects:
+        raise AnalysisError("anchor vanished: collect_agent_statistics call in run_step")
+    cdp = sp[5] if len(sp) > 5 else "collect_data"
+
+    # the condition under which statistics are recorded, in disjunctive normal form - whatever the nesting: `if dc: if cd: C else: if
+    # last: C`, `if dc and (cd or last): C`, guard clauses ...
+    def dnf(test, outcome):
+        if isinstance(test, ast.UnaryOp) and isinstance(test.op, ast.Not):
+            return dnf(test.operand, not outcome)
+        if isinstance(test, ast.BoolOp):
+            parts = [dnf(v, outcome) for v in test.values]
+            conj_ = (isinstance(test.op, ast.And) and outcome) or (isinstance(test.op, ast.Or) and not outcome)
+            if conj_:
+                acc = [[]]
+                for p_ in parts:
+                    acc = [a_ + b_ for a_ in acc for b_ in p_]
+                return acc
+            return [d_ for p_ in parts for d_ in p_]
+        if isinstance(test, ast.Compare) and len(test.ops) == 1 and isinstance(test.ops[0], ast.NotEq):
+            pos = ast.copy_location(ast.Compare(left=test.left, ops=[ast.Eq()], comparators=test.comparators), test)
+            return [[(pos, not outcome)]]
+        return [[(test, outcome)]]
+
+    def path_dnf(stmts, call, acc):
+        for st in stmts:
+            if any(x is call for x in ast.walk(st)):
+                if isinstance(st, ast.If) and not any(x is call for x in ast.walk(st.test)):
+                    inb = any(x is call for b in st.body for x in ast.walk(b))
+                    here = dnf(st.test, inb)
+                    return path_dnf(st.body if inb else st.orelse, call, [a_ + b_ for a_ in acc for b_ in here])
+                if isinstance(st, (ast.For, ast.While, ast.With, ast.Try)):
+                    raise AnalysisError("statistics are recorded inside a %s in run_step" % type(st).__name__)
+                return acc
+            # a guard clause before the call: `if <test>: return/continue`  narrows what follows
+            if isinstance(st, ast.If) and st.body and isinstance(st.body[-1], ast.Return) and not st.orelse:
+                acc = [a_ + b_ for a_ in acc for b_ in dnf(st.test, False)]
+        return acc
+    disj = []
+    for c_ in collects:
+        disj += path_dnf(rs.node.body, c_, [[]])
+
+    def is_cd(a_):
+        return isinstance(a_, ast.Name) and a_.id == cdp
+
+    def is_dc(a_):
+        return "data_collector" in src(a_)
+    d_on = [d_ for d_ in disj if any(is_cd(a_) and t_ for a_, t_ in d_)]
+    d_off = [d_ for d_ in disj if not any(is_cd(a_) and t_ for a_, t_ in d_)]
+    ok_sw = bool(d_on) and all(all(is_cd(a_) or is_dc(a_) for a_, _t in d_) for d_ in d_on)
+    res.check("LAST", "collection switched by collect_data", ok_sw, rs.loc(collects[0]), rs.qual, "; ".join(" and ".join(
+        ("" if t_ else "not ") + src(a_) for a_, t_ in d_) for d_ in d_on)[:120],
+        "statistics are not recorded whenever collect_data is set (and a collector exists)", key="LAST/run_step/switch")
+    if len(d_off) != 1:
+        raise AnalysisError("unrecognised last-step branch (%d ways to record statistics with collect_data off)" % len(d_off))
+    conj = []
+    for a_, t_ in d_off[0]:
+        if is_cd(a_) or is_dc(a_):
+            continue
+        conj.append(a_ if t_ else ast.copy_location(ast.UnaryOp(op=ast.Not(), operand=a_), a_))
+    if not conj:
+        raise AnalysisError("unrecognised last-step branch (no condition)")
+    lt = conj[0] if len(conj) == 1 else ast.copy_location(ast.BoolOp(op=ast.And(), values=conj), conj[0])
     want = {sp[2]: _nf(ast.BinOp(left=_strip_int_deep(o_hi), op=ast.Sub(), right=ast.Constant(1))),
             sp[3]: _nf(ast.BinOp(left=_strip_int_deep(i_hi), op=ast.Sub(), right=ast.Constant(1)))}
     seen_vars = set()
@@ -1375,7 +1440,7 @@ def check_c13(idx: Index, tier: str, res: Result) -> None:
 
     # --- reader/writer keys
     hr = idx.func(HYBRID, "HybridRunner.run_scenario")
-    sets = [n for n in ast.walk(hr.node) if isinstance(n, ast.Call) and call_name(n) == "set" and n.args and isinstance(n.args[0], ast.List)]
+    sets = [n for n in ast.walk(hr.node) if isinstance(n, ast.Call) and call_name(n) == "set" and n.args and isinstance(n.args[0], (ast.List, ast.Tuple, ast.Set))]
     expected = set()
     for s_ in sets:
         expected |= {const_str(e) for e in s_.args[0].elts}
@@ -1408,7 +1473,7 @@ def check_c13(idx: Index, tier: str, res: Result) -> None:
             res.check("KEYS", "aggregate stored under its own type and read from that type's column", "property_type" in src(n.value), hr.loc(n), hr.qual,
                       norm_stmt(n)[-120:], "the aggregate stored under [property_type] is filled from %s, which does not depend on the type" % src(n.value)[-80:],
                       key="KEYS/run_scenario/generic-column")
-    res.floor("aggregate stores in HybridRunner.run_scenario", nbr, 2)
+    res.floor("aggregate stores in HybridRunner.run_scenario", nbr, 1)        # one per result format, or one shared by the formats
     # one frame per agent type: the frames are aligned on their own time index when they are concatenated, a frame shared by several
     # agent types aligns every later column to the index of the first type (times at which that type had no agents are dropped)
     from ..util import per_iteration_objects
